@@ -20,6 +20,7 @@ def _lines_on():
             bp.ApplyResult, bp.MapResult, bp.IMapIterator,
             bp.IMapUnorderedIterator, bp.TimeoutHandler.on_hard_timeout,
             bp.TimeoutHandler.on_soft_timeout, bp.Pool.mark_as_worker_lost,
+            bp.TimeoutHandler.handle_timeouts,
             bp.Pool._join_exited_workers,
             bp.ResultHandler._make_methods)
     linepoints.enable(_codes)
@@ -54,16 +55,27 @@ def make_runner(cfg):
             vos.new_proc()       # pid 100 exists so kill()/getpgid work
             world.procs[100].pgid = 1
             cbs = []
+            soft = 'softscan' in pair
             job = bp.ApplyResult(
                 cache, lambda v: cbs.append(('ok', v)),
                 error_callback=lambda e: cbs.append(('err', e.type.__name__)),
-                timeout=1.0, lost_worker_timeout=1.0)
+                timeout=None if soft else 1.0,
+                soft_timeout=0.5 if soft else None, lost_worker_timeout=1.0,
+                timeout_callback=lambda **kw: cbs.append(('to', kw)))
+            sent_when = []
+            real_kill = bp._kill
+
+            def spy_kill(pid, sig):
+                sent_when.append((int(sig), job.ready()))
+                return real_kill(pid, sig)
+            bp._kill = spy_kill
             putlock = bp.LaxBoundedSemaphore(2)
             vproc.use_scheduler_aware_putlock(putlock)
             rh = bp.ResultHandler(None, None, cache, None, None, putlock,
                                   bp.restart_state(1, 1), None, None,
                                   on_ready_counters={})
-            th = bp.TimeoutHandler([_FakeProc(100)], cache, None, 1.0)
+            th = bp.TimeoutHandler([_FakeProc(100)], cache, None,
+                                   None if soft else 1.0)
             if cfg.get('acked', True):
                 rh.on_state_change((bp.ACK, (job._job, None, 999.0, 100, None)))
             seen = []
@@ -120,8 +132,13 @@ def make_runner(cfg):
                     sched.point('in-cs', None)
                     with linepoints.nopreempt():
                         observe()
+            def softscan():
+                # one round of the real scan generator
+                th.handle_event()
+                with linepoints.nopreempt():
+                    observe()
             fns = dict(ready=ready, hard=hard, lost=lost, putfail=putfail,
-                       ack=ack)
+                       ack=ack, softscan=softscan)
             _lines_on()
             for k, name in enumerate(pair):
                 sched.spawn(fns[name], name, pid=vos.MAIN_PID)
@@ -132,10 +149,11 @@ def make_runner(cfg):
             finally:
                 sched.linepoints = False
                 linepoints.disable()
+                bp._kill = real_kill
             status = sched.status
             errs = [repr(t.exc) for t in sched.threads if t.exc]
             observe()
-            ncb = [c[0] for c in cbs]
+            ncb = [c[0] for c in cbs if c[0] != 'to']
             incache = job._job in cache
             kills = [k for k in world.kills if k[1] == 100]
         v = None
@@ -158,6 +176,11 @@ def make_runner(cfg):
                  'may already run the next job)' % (pair[0], pair[1],
                                                     seen[-1], kills))
             sig = 'F28:scanner-kills-after-losing-the-race'
+        elif [x for x in sent_when if x == (int(bp.SIG_SOFT_TIMEOUT), True)]:
+            v = ('%s || %s: the soft-limit signal was sent although the '
+                 'job\'s result had already been processed (its worker may '
+                 'be running another job by now)' % (pair[0], pair[1]))
+            sig = 'F29:soft-signal-after-result-processed'
         elif not seen:
             v = 'job left unresolved'
         elif incache and job._accepted:
@@ -198,14 +221,16 @@ def configs(tier):
     out = []
     for pair in (['hard', 'ready'], ['lost', 'ready'], ['hard', 'lost']):
         out.append((dict(pair=pair, acked=True), b))
+    out.append((dict(pair=['softscan', 'ready'], acked=True), b))
     out.append((dict(pair=['putfail', 'ack'], acked=False), b))
     out.append((dict(pair=['ready', 'ack'], acked=False), b))
     return out
 
 
-def part(rep, tier):
+def part(rep, tier, only=None, name='thread-level-pairs'):
     from vmc import par
-    cfgs = configs(tier)
+    cfgs = [c for c in configs(tier)
+            if only is None or any(o in c[0]['pair'] for o in only)]
     st = explore.Stats()
     for (cfg, b), d in zip(cfgs, par.pmap('harness.c01_threads:explore_pair',
                                           cfgs)):
@@ -214,7 +239,7 @@ def part(rep, tier):
         for msg, ch, sig in found:
             rep.violation(msg, dict(harness='c01-threads', config=cfg,
                                     choices=ch), signature=sig)
-    rep.stats('thread-level-pairs', st, configs=len(cfgs),
+    rep.stats(name, st, configs=len(cfgs),
               preemption_bound=cfgs[0][1])
 
 
